@@ -128,9 +128,10 @@ Inductive answer :=
 | AOk                 (* any status other than 401 *)
 | A401 (hdr : str)    (* 401 with this Www-Authenticate header *)
 | ATok (id : N)       (* token endpoint: 200 with a non-empty token *)
-| AFail.              (* token endpoint: anything else *)
+| AFail               (* token endpoint: anything else *)
+| AErr.               (* no response: transport error or cancelled context *)
 
-Inductive err := ENoCred | EMissing | EFetch | ERewind.
+Inductive err := ENoCred | EMissing | EFetch | ERewind | ETransport.
 
 Inductive result :=
 | RResp (is401 : bool)
@@ -148,6 +149,7 @@ Definition final_send (s : send) (script : list answer) : list event * result :=
   match script with
   | AOk :: _ => ([(s, AOk)], RResp false)
   | A401 hd :: _ => ([(s, A401 hd)], RResp true)
+  | AErr :: _ => ([(s, AErr)], RErr ETransport)
   | _ => ([], RBad)
   end.
 
@@ -206,6 +208,7 @@ Definition do_request (clean : list str -> list str) (cf : config) (c : cc) (rq 
   match script with
   | [] => ([], c, RBad)
   | AOk :: _ => ([(s1, AOk)], c, RResp false)
+  | AErr :: _ => ([(s1, AErr)], c, RErr ETransport)
   | A401 hdr :: script1 =>
     let ev1 := (s1, A401 hdr) in
     match parse_challenge hdr with
@@ -247,6 +250,7 @@ Definition do_request (clean : list str -> list str) (cf : config) (c : cc) (rq 
           match script2 with
           | ATok id :: script3 => finish [(s, ATok id)] (SIssued h id) script3
           | AFail :: _ => (evs0 ++ [(s, AFail)], c, RErr EFetch)
+          | AErr :: _ => (evs0 ++ [(s, AErr)], c, RErr ETransport)
           | _ => (evs0, c, RBad)
           end
         end in
@@ -257,6 +261,7 @@ Definition do_request (clean : list str -> list str) (cf : config) (c : cc) (rq 
           let s2 := SReg h (ABearer tok) false in
           match script1 with
           | AOk :: _ => ([ev1; (s2, AOk)], c, RResp false)
+          | AErr :: _ => ([ev1; (s2, AErr)], c, RErr ETransport)
           | A401 hdr2 :: script2 => continue_ [ev1; (s2, A401 hdr2)] script2
           | _ => ([ev1], c, RBad)
           end
